@@ -69,6 +69,23 @@ def generate(rng, tier):
                           "closed": {"terms": terms, "levels": levels, "L": L_, "graded": graded},
                           "desc": {"method": "F_to_G" if d == 0 else "G_to_F", "closed_form": True, "graded_grid": graded,
                                    "terms": len(terms), "tiny_amplitude": scale != 1.0}})
+    # a long input grid (blocked / chunked implementations): closed form on 4500 points, five output points
+    terms = [(1.5, 0.02), (-0.7, 0.05)]
+    for d in (0, 1):
+        L_ = 60.0 if d == 0 else 40.0
+        levels = []
+        for n in (1125, 2250, 4500):
+            xin = [L_ * j / n for j in range(n + 1)]
+            if d == 1:
+                y = [sum(A * v * math.exp(-a * v * v) for A, a in terms) for v in xin]
+            else:
+                y = [sum(A * math.sqrt(math.pi) * v / (4 * a ** 1.5) * math.exp(-v * v / (4 * a)) for A, a in terms) for v in xin]
+            levels.append({"xin": xin, "yin": y})
+        cases.append({"dir": d, "X": 1, "Y": 1, "xin": levels[0]["xin"], "yin": levels[0]["yin"], "xout": [0.0, 0.05, 0.15, 0.3, 0.6], "dy": None,
+                      "mat": {"rho": 0.05, "bcoh": 1.0, "btot": 1.0}, "lorch": False, "omitted": False, "channel": 0,
+                      "closed": {"terms": terms, "levels": levels, "L": L_, "graded": False}, "long_roundtrip": 2600 if d == 0 else None,
+                      "desc": {"method": "F_to_G" if d == 0 else "G_to_F", "closed_form": True, "graded_grid": False, "terms": 2,
+                               "tiny_amplitude": False, "long_grid": True}})
     # unmatched grids (correspondence only)
     for i in range(10 if tier == "quick" else 60):
         d, X, Y = PAIRS[i % 4]
@@ -140,6 +157,17 @@ def oracle(pystog, case, res):
         if base == 1.0 and y2[0] != 1.0:
             return "conventional value 1 not returned at x = 0"
         return None
+    if case.get("long_roundtrip"):
+        N = case["long_roundtrip"]
+        dr_ = 0.01
+        rr = np.arange(N + 1) * dr_
+        qq = np.arange(N + 1) * math.pi / (N * dr_)
+        G = np.sin(rr * 1.3) * np.exp(-rr / 7.0)
+        G[0] = G[-1] = 0.0
+        _, Fq, _ = tr.G_to_F(rr, G, qq)
+        _, G2, _ = tr.F_to_G(qq, Fq, rr)
+        if np.abs(G2 - G).max() > 1e-9 * (N + 1) * np.abs(G).max():
+            return "matched grids with N=%d: G_to_F then F_to_G returns the data with error %.3g" % (N, float(np.abs(G2 - G).max()))
     if "closed" in case:
         terms = case["closed"]["terms"]
         xo = np.array(case["xout"], float)
